@@ -561,7 +561,10 @@ def evaluate_z3_seq_at(
 
     return Some(
         construct_result(
-            lambda args: cast(str, args[0])[cast(int, args[1])], children_results
+            lambda args: cast(str, args[0])[cast(int, args[1])]
+            if 0 <= cast(int, args[1]) < len(cast(str, args[0]))
+            else "",
+            children_results,
         )
     )
 
